@@ -526,7 +526,7 @@ def repair_empty_tuple_index(n: ast.AST) -> bool:
 
 def _tuple_leak_root(n: ast.AST) -> bool:
     """Parenthesised tuples below a subscript index (not the index itself) that are reached without crossing another
-    tuple or subscript: `a[[(1, 2)]]`, `a[(1, 2):3]`, `a[b + (1, 2)]`.  Repair: make them list displays."""
+    tuple or subscript: `a[[(1, 2)]]`, `a[(1, 2):3]`, `a[b + (1, 2)]`.  Repair: replace them by a name."""
     changed = False
 
     def walk(x: ast.AST) -> None:
@@ -535,7 +535,9 @@ def _tuple_leak_root(n: ast.AST) -> bool:
             return
         for child, parent, field, index in list(slots(x)):
             if isinstance(child, ast.Tuple):
-                put(parent, field, index, ast.List(child.elts, ast.Load()))
+                # (the tuple itself renders correctly alone — it is smaller than N — so nothing is lost by replacing it; a list
+                # display would pass the flag on to tuples the replaced tuple used to shield)
+                put(parent, field, index, _ph())
                 changed = True
             else:
                 walk(child)
